@@ -2,9 +2,10 @@
 mod common;
 use libfuzzer_sys::fuzz_target;
 fuzz_target!(|data: &[u8]| {
-    if data.first().map(|b| b % 2 == 0).unwrap_or(true) {
-        common::drive("C20", &data[1.min(data.len())..], gpa_verif::props::c20::runs_strategy(), gpa_verif::props::c20::eval_runs);
+    let mut w = common::Words::new(data);
+    if w.next() % 2 == 0 {
+        common::judge("C20", gpa_verif::props::c20::runs_from_words(&mut w), gpa_verif::props::c20::eval_runs);
     } else {
-        common::drive("C20", &data[1..], gpa_verif::props::c20::notify_strategy(), gpa_verif::props::c20::eval_notify);
+        common::judge("C20", gpa_verif::props::c20::notify_from_words(&mut w), gpa_verif::props::c20::eval_notify);
     }
 });
